@@ -28,7 +28,7 @@ var (
 	errInvalidDataSize    = meta.NewError(meta.ErrInvalidParam, "invalid data size", nil) // not used
 	errInvalidTag         = meta.NewError(meta.ErrInvalidParam, "invalid tag in ReadMessageBegin", nil)
 	errInvalidFieldNumber = meta.NewError(meta.ErrInvalidParam, "invalid field number", nil)
-	errExceedDepthLimit   = meta.NewError(meta.ErrStackOverflow, "exceed depth limit", nil) // not used
+	errExceedDepthLimit   = meta.NewError(meta.ErrStackOverflow, "exceed depth limit", nil)
 	errInvalidDataType    = meta.NewError(meta.ErrRead, "invalid data type", nil)
 	errUnknonwField       = meta.NewError(meta.ErrUnknownField, "unknown field", nil)
 	errUnsupportedType    = meta.NewError(meta.ErrUnsupportedType, "unsupported type", nil)
@@ -39,6 +39,11 @@ var (
 
 // We append to an empty array rather than a nil []byte to get non-nil zero-length byte slices.
 var emptyBuf [0]byte
+
+// MaxDepth is the deepest nesting of messages the recursive readers accept.
+// The readers recurse once per nesting level: without a limit a message of some MB
+// that is nothing but nested length prefixes overflows the goroutine stack, which is fatal.
+const MaxDepth = 1023
 
 // Serizalize data to byte array and reuse the memory
 type BinaryProtocol struct {
@@ -974,6 +979,10 @@ func (p *BinaryProtocol) ReadEnum() (proto.EnumNumber, error) {
 
 // ReadList
 func (p *BinaryProtocol) ReadList(desc *proto.TypeDescriptor, copyString bool, disallowUnknown bool, useFieldName bool) ([]interface{}, error) {
+	return p.readList(desc, copyString, disallowUnknown, useFieldName, 0)
+}
+
+func (p *BinaryProtocol) readList(desc *proto.TypeDescriptor, copyString bool, disallowUnknown bool, useFieldName bool, depth int) ([]interface{}, error) {
 	hasMessageLen := true
 	elemetdesc := desc.Elem()
 	// Read ListTag
@@ -992,7 +1001,7 @@ func (p *BinaryProtocol) ReadList(desc *proto.TypeDescriptor, copyString bool, d
 		// read list
 		start := p.Read
 		for p.Read < start+length {
-			v, err := p.ReadBaseTypeWithDesc(elemetdesc, hasMessageLen, copyString, disallowUnknown, useFieldName)
+			v, err := p.readBaseTypeWithDesc(elemetdesc, hasMessageLen, copyString, disallowUnknown, useFieldName, depth)
 			if err != nil {
 				return nil, err
 			}
@@ -1000,7 +1009,7 @@ func (p *BinaryProtocol) ReadList(desc *proto.TypeDescriptor, copyString bool, d
 		}
 	} else {
 		// unpacked list
-		v, err := p.ReadBaseTypeWithDesc(elemetdesc, hasMessageLen, copyString, disallowUnknown, useFieldName)
+		v, err := p.readBaseTypeWithDesc(elemetdesc, hasMessageLen, copyString, disallowUnknown, useFieldName, depth)
 		if err != nil {
 			return nil, err
 		}
@@ -1020,7 +1029,7 @@ func (p *BinaryProtocol) ReadList(desc *proto.TypeDescriptor, copyString bool, d
 				return nil, moveTagErr
 			}
 
-			v, err := p.ReadBaseTypeWithDesc(elemetdesc, hasMessageLen, copyString, disallowUnknown, useFieldName)
+			v, err := p.readBaseTypeWithDesc(elemetdesc, hasMessageLen, copyString, disallowUnknown, useFieldName, depth)
 			if err != nil {
 				return nil, err
 			}
@@ -1031,12 +1040,16 @@ func (p *BinaryProtocol) ReadList(desc *proto.TypeDescriptor, copyString bool, d
 }
 
 func (p *BinaryProtocol) ReadPair(keyDesc *proto.TypeDescriptor, valueDesc *proto.TypeDescriptor, copyString bool, disallowUnknown bool, useFieldName bool) (interface{}, interface{}, error) {
+	return p.readPair(keyDesc, valueDesc, copyString, disallowUnknown, useFieldName, 0)
+}
+
+func (p *BinaryProtocol) readPair(keyDesc *proto.TypeDescriptor, valueDesc *proto.TypeDescriptor, copyString bool, disallowUnknown bool, useFieldName bool, depth int) (interface{}, interface{}, error) {
 	hasMessageLen := true
 	if _, _, _, err := p.ConsumeTag(); err != nil {
 		return nil, nil, err
 	}
 
-	key, err := p.ReadBaseTypeWithDesc(keyDesc, hasMessageLen, copyString, disallowUnknown, useFieldName)
+	key, err := p.readBaseTypeWithDesc(keyDesc, hasMessageLen, copyString, disallowUnknown, useFieldName, depth)
 	if err != nil {
 		return nil, nil, err
 	}
@@ -1044,7 +1057,7 @@ func (p *BinaryProtocol) ReadPair(keyDesc *proto.TypeDescriptor, valueDesc *prot
 	if _, _, _, err := p.ConsumeTag(); err != nil {
 		return nil, nil, err
 	}
-	value, err := p.ReadBaseTypeWithDesc(valueDesc, hasMessageLen, copyString, disallowUnknown, useFieldName)
+	value, err := p.readBaseTypeWithDesc(valueDesc, hasMessageLen, copyString, disallowUnknown, useFieldName, depth)
 	if err != nil {
 		return nil, nil, err
 	}
@@ -1053,6 +1066,10 @@ func (p *BinaryProtocol) ReadPair(keyDesc *proto.TypeDescriptor, valueDesc *prot
 
 // ReadMap
 func (p *BinaryProtocol) ReadMap(desc *proto.TypeDescriptor, copyString bool, disallowUnknown bool, useFieldName bool) (map[interface{}]interface{}, error) {
+	return p.readMap(desc, copyString, disallowUnknown, useFieldName, 0)
+}
+
+func (p *BinaryProtocol) readMap(desc *proto.TypeDescriptor, copyString bool, disallowUnknown bool, useFieldName bool, depth int) (map[interface{}]interface{}, error) {
 	// read first kv pair tag
 	fieldNumber, mapWireType, _, mapTagErr := p.ConsumeTag()
 	if mapTagErr != nil {
@@ -1072,7 +1089,7 @@ func (p *BinaryProtocol) ReadMap(desc *proto.TypeDescriptor, copyString bool, di
 		return nil, lengthErr
 	}
 	// read first Pair
-	key, value, pairReadErr := p.ReadPair(keyDesc, valueDesc, copyString, disallowUnknown, useFieldName)
+	key, value, pairReadErr := p.readPair(keyDesc, valueDesc, copyString, disallowUnknown, useFieldName, depth)
 	if pairReadErr != nil {
 		return nil, pairReadErr
 	}
@@ -1096,7 +1113,7 @@ func (p *BinaryProtocol) ReadMap(desc *proto.TypeDescriptor, copyString bool, di
 		if _, pairLenErr := p.ReadLength(); pairLenErr != nil {
 			return nil, pairLenErr
 		}
-		key, value, pairReadErr := p.ReadPair(keyDesc, valueDesc, copyString, disallowUnknown, useFieldName)
+		key, value, pairReadErr := p.readPair(keyDesc, valueDesc, copyString, disallowUnknown, useFieldName, depth)
 		if pairReadErr != nil {
 			return nil, pairReadErr
 		}
@@ -1111,18 +1128,27 @@ func (p *BinaryProtocol) ReadMap(desc *proto.TypeDescriptor, copyString bool, di
 //   - MAP will be converted to map[string]interface{} or map[int]interface{} or map[interface{}]interface{}
 //   - MESSAGE will be converted to map[proto.FieldNumber]interface{} or map[string]interface{}
 func (p *BinaryProtocol) ReadAnyWithDesc(desc *proto.TypeDescriptor, hasMessageLen bool, copyString bool, disallowUnknown bool, useFieldName bool) (interface{}, error) {
+	return p.readAnyWithDesc(desc, hasMessageLen, copyString, disallowUnknown, useFieldName, 0)
+}
+
+func (p *BinaryProtocol) readAnyWithDesc(desc *proto.TypeDescriptor, hasMessageLen bool, copyString bool, disallowUnknown bool, useFieldName bool, depth int) (interface{}, error) {
 	switch {
 	case desc.IsList():
-		return p.ReadList(desc, copyString, disallowUnknown, useFieldName)
+		return p.readList(desc, copyString, disallowUnknown, useFieldName, depth)
 	case desc.IsMap():
-		return p.ReadMap(desc, copyString, disallowUnknown, useFieldName)
+		return p.readMap(desc, copyString, disallowUnknown, useFieldName, depth)
 	default:
-		return p.ReadBaseTypeWithDesc(desc, hasMessageLen, copyString, disallowUnknown, useFieldName)
+		return p.readBaseTypeWithDesc(desc, hasMessageLen, copyString, disallowUnknown, useFieldName, depth)
 	}
 }
 
 // ReadBaseType with desc, not thread safe
 func (p *BinaryProtocol) ReadBaseTypeWithDesc(desc *proto.TypeDescriptor, hasMessageLen bool, copyString bool, disallowUnknown bool, useFieldName bool) (interface{}, error) {
+	return p.readBaseTypeWithDesc(desc, hasMessageLen, copyString, disallowUnknown, useFieldName, 0)
+}
+
+// depth is the number of messages this value is nested in
+func (p *BinaryProtocol) readBaseTypeWithDesc(desc *proto.TypeDescriptor, hasMessageLen bool, copyString bool, disallowUnknown bool, useFieldName bool, depth int) (interface{}, error) {
 	switch desc.Type() {
 	case proto.BOOL:
 		v, e := p.ReadBool()
@@ -1173,6 +1199,9 @@ func (p *BinaryProtocol) ReadBaseTypeWithDesc(desc *proto.TypeDescriptor, hasMes
 		v, e := p.ReadBytes()
 		return v, e
 	case proto.MESSAGE:
+		if depth >= MaxDepth {
+			return nil, errExceedDepthLimit
+		}
 		messageLength := len(p.Buf) - p.Read
 		if hasMessageLen {
 			length, messageLengthErr := p.ReadLength()
@@ -1226,7 +1255,7 @@ func (p *BinaryProtocol) ReadBaseTypeWithDesc(desc *proto.TypeDescriptor, hasMes
 			}
 			// sub message has message length, must be true
 			hasMsgLen := true
-			v, fieldErr := p.ReadAnyWithDesc(field.Type(), hasMsgLen, copyString, disallowUnknown, useFieldName)
+			v, fieldErr := p.readAnyWithDesc(field.Type(), hasMsgLen, copyString, disallowUnknown, useFieldName, depth+1)
 			if fieldErr != nil {
 				return nil, fieldErr
 			}
